@@ -28,18 +28,26 @@ RULE = ("treebanks ordered by size: every tree with <=3 tokens over labels {S,NP
         "together with its continuous twin (same labels and dominance, tokens renumbered depth first: the same "
         "rules under ancestors with the same label but another fan-out), seeded pairs / triples of the rest, "
         "random treebanks; x grammar types {treebank, leftright, optimal} x {deterministic, Markov v,h in 0..3 "
-        "with/without nofanout}.  Non-trivial = some rule occurs more than once or in more than one vertical "
-        "context (key = treebank + configuration)")
+        "with/without nofanout}.  Wide flat constituents (a horizontal context shorter than the rule sees the same "
+        "window several times inside ONE rule): NP with K..Kmax token children whose tags run through every "
+        "pattern of repetition over <=2 tags (K children) / the periodic patterns over <=3 tags (more children), "
+        "the coordination NP -> NP PU NP PU .. NP, wide nodes with a gap; each alone, and -- for the periodic "
+        "ones -- once below VROOT and twice below S (same rule, repeated, under different parents), as separate "
+        "trees and inside one tree; these under EVERY v,h in 0..3 with/without nofanout, leftright and optimal.  "
+        "Non-trivial = some rule occurs more than once or in more than one vertical context, or a rule with >=5 "
+        "children repeats a child label (key = treebank + configuration)")
 
 
 def BOUNDS(ctx):
     if ctx.quick:
         return {"tiny_tokens": 3, "shapes_n": 4, "small_pairs_from": 16, "seeded_tuples": 60,
                 "random_treebanks": 30, "random_max_n": 9, "markov": "covering(20 of 32)",
-                "markov_per_larger_treebank": 5}
+                "markov_per_larger_treebank": 5,
+                "wide_children": [5, 7], "wide_all_patterns_tags": 2, "wide_markov": "all 32"}
     return {"tiny_tokens": 3, "shapes_n": 5, "small_pairs_from": 40, "seeded_tuples": 1500,
             "random_treebanks": 600, "random_max_n": 12, "markov": "all 32",
-            "markov_per_larger_treebank": 8}
+            "markov_per_larger_treebank": 8,
+            "wide_children": [5, 8], "wide_all_patterns_tags": 3, "wide_markov": "all 32"}
 
 
 SITES = {
@@ -328,6 +336,107 @@ def continuous_twin(spec):
     return twin
 
 
+# ---- wide flat constituents ---------------------------------------------------
+# A Markov label only remembers the last h children (and v ancestors): inside ONE rule with five or
+# more children whose labels repeat, two binarization steps can produce the same production.  The
+# conservation equations of the property then still have to hold (the production counts twice).
+
+WIDE_TAGS = ("NN", "PU", "VB")
+
+
+def _patterns(k, letters):
+    """every pattern of repetition of length k over <= `letters` symbols (restricted growth strings)"""
+    out = [[0]]
+    for _ in range(k - 1):
+        out = [p + [a] for p in out for a in range(min(max(p) + 1, letters - 1) + 1)]
+    return [tuple(p) for p in out]
+
+
+def _periodic(k):
+    """the patterns of length k with period 1, 2 or 3, and two with distinct ends"""
+    bases = [(0,), (0, 1), (0, 1, 1), (0, 0, 1), (0, 1, 2)]
+    out = [tuple(b[i % len(b)] for i in range(k)) for b in bases]
+    out.append((1,) + (0,) * (k - 2) + (1,))
+    out.append((1,) + (0,) * (k - 2) + (2,))
+    res = []
+    for p in out:
+        if p not in res:
+            res.append(p)
+    return res
+
+
+def _tokens(pattern, first):
+    return [tg.leaf_spec(first + i, "w", WIDE_TAGS[a]) for i, a in enumerate(pattern)]
+
+
+def _top(children):
+    t = tg.node_spec("VROOT", children)
+    t["sid"] = 1
+    return t
+
+
+def wide_top(pattern):
+    """VROOT > NP > tokens"""
+    return _top([tg.node_spec("NP", _tokens(pattern, 1))])
+
+
+def wide_below_s(pattern):
+    """VROOT > S > NP > tokens: the same rule NP -> .. under another parent"""
+    return _top([tg.node_spec("S", [tg.node_spec("NP", _tokens(pattern, 1))])])
+
+
+def wide_twice(pattern):
+    """one tree with the rule NP -> .. below VROOT and below S"""
+    k = len(pattern)
+    return _top([tg.node_spec("NP", _tokens(pattern, 1)),
+                 tg.node_spec("S", [tg.node_spec("NP", _tokens(pattern, k + 1))])])
+
+
+def wide_gap(pattern, gaps):
+    """VROOT > {NP > tokens, VB tokens}: the tokens at the 1-based positions `gaps` of the sentence are
+    children of the root, the others the children of a discontinuous NP"""
+    n = len(pattern) + len(gaps)
+    inner = [i for i in range(1, n + 1) if i not in gaps]
+    kids = [tg.leaf_spec(i, "w", WIDE_TAGS[a]) for i, a in zip(inner, pattern)]
+    return _top([tg.node_spec("NP", kids)] + [tg.leaf_spec(i, "v", "VB") for i in gaps])
+
+
+def coordination(k, commas, parents=()):
+    """NP -> NP (PU) NP (PU) .. NP with k conjuncts NP > NN, below the chain of `parents`"""
+    kids, n = [], 0
+    for i in range(k):
+        if i and commas:
+            n += 1
+            kids.append(tg.leaf_spec(n, ",", "PU"))
+        n += 1
+        kids.append(tg.node_spec("NP", [tg.leaf_spec(n, "w", "NN")]))
+    node = tg.node_spec("NP", kids)
+    for lab in reversed(parents):
+        node = tg.node_spec(lab, [node])
+    return _top([node])
+
+
+def wide_treebanks(ctx):
+    kmin, kmax = BOUNDS(ctx)["wide_children"]
+    every = _patterns(kmin, BOUNDS(ctx)["wide_all_patterns_tags"])
+    periodic = [p for k in range(kmin, kmax + 1) for p in _periodic(k)]
+    singles = every + [p for p in periodic if p not in every]
+    for p in singles:
+        yield [wide_top(p)]
+    yield [coordination(4, True)]
+    yield [coordination(5, False)]
+    for p in _periodic(kmin)[:3] + _periodic(kmin + 1)[:2]:
+        yield [wide_gap(p, (3,))]
+        yield [wide_gap(p, (2, 5))]
+    # the quantifier of the property: the same rule repeatedly and under different parents
+    for p in periodic:
+        yield [wide_top(p), wide_below_s(p), wide_below_s(p)]
+        yield [wide_twice(p)]
+    yield [coordination(4, True, ("S",)), coordination(4, True, ("S", "VP")), coordination(4, True, ("S", "VP"))]
+    yield [wide_gap((0, 1, 0, 1, 0), (3,)), continuous_twin(wide_gap((0, 1, 0, 1, 0), (3,))),
+           wide_gap((0, 1, 0, 1, 0), (3,))]
+
+
 def treebanks(ctx):
     b = BOUNDS(ctx)
     rng = ctx.rng
@@ -365,10 +474,13 @@ def treebanks(ctx):
         if rng.random() < 0.5:
             tb.append(tb[0])
         yield False, tb[:3]
+    # last, so that the enumeration above is what it was before this family existed
+    for tb in wide_treebanks(ctx):
+        yield "all", tb
 
 
-def configs(ctx):
-    ms = L.covering_markov() if ctx.quick else L.all_markov()
+def configs(ctx, every=False):
+    ms = L.covering_markov() if ctx.quick and not every else L.all_markov()
     out = [("treebank", None)]
     for gt in ("leftright", "optimal"):
         out.append((gt, None))
@@ -379,13 +491,16 @@ def configs(ctx):
 
 def _nontrivial(specs):
     eg, _ = L.ref_extract(specs)
-    return any(len(eg[f][l]) > 1 or sum(eg[f][l].values()) > 1 for f in eg for l in eg[f])
+    return (any(len(eg[f][l]) > 1 or sum(eg[f][l].values()) > 1 for f in eg for l in eg[f])
+            or any(len(f) >= 6 and len(set(f[1:])) < len(f) - 1 for f in eg))
 
 
 def generate(ctx):
-    """the smallest treebanks meet every configuration; the larger ones the deterministic
-    configurations and K Markov configurations each, dealt round-robin"""
+    """the smallest treebanks meet every configuration (of the covering set in tier quick); the larger
+    ones the deterministic configurations and K Markov configurations each, dealt round-robin; the
+    treebanks with wide flat constituents all 32 Markov configurations in every tier"""
     cfgs = configs(ctx)
+    all_cfgs = configs(ctx, every=True)
     markov_cfgs = [c for c in cfgs if c[1] is not None]
     plain_cfgs = [c for c in cfgs if c[1] is None]
     per = BOUNDS(ctx)["markov_per_larger_treebank"]
@@ -393,7 +508,9 @@ def generate(ctx):
     for ti, (full, tb) in enumerate(treebanks(ctx)):
         nt = _nontrivial(tb)
         name = " ".join(tg.spec_str(s) for s in tb)
-        if full:
+        if full == "all":
+            these = all_cfgs
+        elif full:
             these = cfgs
         else:
             these = plain_cfgs + [markov_cfgs[(mi + j) % len(markov_cfgs)] for j in range(per)]
